@@ -28,6 +28,8 @@ pub struct Process {
     timestamp: i64,
     env: ShareLock<Vars>,
     runtime: Arc<Runtime>,
+    // serialises the client actions of this process
+    action_lock: Arc<std::sync::Mutex<()>>,
 }
 
 impl fmt::Debug for Process {
@@ -64,6 +66,7 @@ impl Process {
             env: Arc::new(RwLock::new(Vars::new())),
             err: Arc::new(RwLock::new(None)),
             runtime: rt.clone(),
+            action_lock: Arc::new(std::sync::Mutex::new(())),
         })
     }
 
@@ -270,6 +273,12 @@ impl Process {
 
     #[instrument()]
     pub fn do_action(self: &Arc<Self>, action: &Action) -> Result<()> {
+        // one client action at a time per process: the state check of an action and the
+        // changes it makes must not interleave with another action on the same process
+        let _guard = self
+            .action_lock
+            .lock()
+            .unwrap_or_else(|err| err.into_inner());
         let mut action = action.clone();
         let task = self.task(&action.tid).ok_or(ActError::Action(format!(
             "cannot find task by '{}' tasks={:?}",
